@@ -354,6 +354,15 @@ def exports_e1(sx):
         sx.check(False, "as_surface raised" + tag, detail="n1=%d n2=%d: %r" % (n1, n2, e))
         return
     c14.check_surface(sx, m, tag, chi=1, loops=1, nverts=n1 * n2, nfaces=(n1 - 1) * (n2 - 1), arity=4)
+    # grid consistency: vertex i*n2+j is the patch point of the (i,j)-th parameter pair, every quad is one grid cell
+    U, Vv = np.linspace(0, 1, n1), np.linspace(0, 1, n2)
+    okv = len(m.vertices) == n1 * n2 and all(np.allclose(np.asarray(m.vertices[i * n2 + j], dtype=float), np.asarray(patch.evaluate(U[i], Vv[j]), dtype=float))
+                                             for i in range(n1) for j in range(n2))
+    sx.check(okv, "as_surface stores the sample of parameter pair (i,j) at index i*n2+j" + tag)
+    cells = set(frozenset((i * n2 + j, (i + 1) * n2 + j, (i + 1) * n2 + j + 1, i * n2 + j + 1)) for i in range(n1 - 1) for j in range(n2 - 1))
+    got = [frozenset(int(v) for v in f) for f in m.faces]
+    sx.check(set(got) == cells and len(got) == len(cells), "every quad of as_surface is exactly one cell of the sample grid" + tag,
+             detail="n1=%d n2=%d" % (n1, n2))
     curve = B.BezierCurve([np.array([0., 0., 0.]), np.array([1., 2., 0.]), np.array([2., 0., 1.])])
     pl = curve.as_polyline(n1 + 1)
     E = [tuple(int(x) for x in e) for e in pl.edges]
